@@ -151,4 +151,443 @@ theorem renameIdent_is_cand (base : String) (taken : List String) (fuel n : Nat)
   obtain ⟨k, hk, h⟩ := firstFree_is_cand (renCand base) taken fuel n
   exact ⟨k, by omega, h⟩
 
+/-! ### `nameArgs` -/
+
+theorem allPlain_nameArgs (fnName : String) : ∀ (args : List FnArg) (idx : Nat) (taken : List String),
+    (∀ a ∈ args, match a with
+      | .typed _ (.ident r m _ s) _ => r = false ∧ m = false ∧ s = none
+      | _ => True) →
+    allPlain (nameArgs fnName idx taken args) = true
+  | [], _, _, _ => by simp [nameArgs, allPlain]
+  | .recv a r m c :: rest, idx, taken, h => by
+      simp only [nameArgs, allPlain]
+      exact allPlain_nameArgs fnName rest idx taken (fun a ha => h a (List.mem_cons_of_mem _ ha))
+  | .typed attrs (.other t b) ty :: rest, idx, taken, h => by
+      simp only [nameArgs, allPlain, plainPat]
+      exact allPlain_nameArgs fnName rest _ _ (fun a ha => h a (List.mem_cons_of_mem _ ha))
+  | .typed attrs (.ident r m name sub) ty :: rest, idx, taken, h => by
+      have h0 := h _ (List.mem_cons_self)
+      simp only at h0
+      obtain ⟨rfl, rfl, rfl⟩ := h0
+      simp only [nameArgs]
+      split
+      · simp only [allPlain, plainPat]
+        exact allPlain_nameArgs fnName rest _ _ (fun a ha => h a (List.mem_cons_of_mem _ ha))
+      · simp only [allPlain]
+        exact allPlain_nameArgs fnName rest _ _ (fun a ha => h a (List.mem_cons_of_mem _ ha))
+
+theorem liftPat_plain (a : FnArg) :
+    match a.liftPat with
+    | .typed _ (.ident r m _ s) _ => r = false ∧ m = false ∧ s = none
+    | _ => True := by
+  cases a with
+  | recv => simp [FnArg.liftPat]
+  | typed attrs pat ty =>
+    cases pat with
+    | ident r m n s => simp [FnArg.liftPat, liftPat, plainPat]
+    | other t b =>
+      simp only [FnArg.liftPat, liftPat]
+      match List.filter lowerFirst b with
+      | [] => simp
+      | [x] => simp [plainPat]
+      | x :: y :: tl => simp
+
+/-- (A) every typed parameter of the result is a plain identifier -/
+theorem allPlain_fixParams (fnIdent : String) (inputs : List FnArg) :
+    allPlain (fixParams fnIdent inputs) = true := by
+  unfold fixParams
+  apply allPlain_nameArgs
+  intro a ha
+  obtain ⟨b, _, rfl⟩ := List.mem_map.mp ha
+  exact liftPat_plain b
+
+/-- all `Pat::Ident` parameters are plain (true after the lifting loop) -/
+def ArgsPlain (args : List FnArg) : Prop :=
+  ∀ a ∈ args, match a with
+    | .typed _ (.ident r m _ s) _ => r = false ∧ m = false ∧ s = none
+    | _ => True
+
+theorem ArgsPlain.tail {a : FnArg} {args : List FnArg} (h : ArgsPlain (a :: args)) : ArgsPlain args :=
+  fun b hb => h b (List.mem_cons_of_mem _ hb)
+
+theorem unraw_renamed (fnName : String) (hf : NotRaw fnName) (taken : List String) :
+    let n := renameIdent fnName taken (taken.length + 1) 1
+    unraw n = n ∧ n ≠ fnName ∧ n ∉ taken := by
+  obtain ⟨k, hk, he⟩ := renameIdent_is_cand fnName taken (taken.length + 1) 1 (Nat.le_refl _)
+  refine ⟨?_, ?_, renameIdent_fresh fnName taken⟩
+  · simp only [he]; exact unraw_of_notRaw _ (renCand_notRaw fnName hf k hk)
+  · simp only [he]; exact renCand_ne_base fnName k hk
+
+theorem unraw_generated (idx : Nat) (taken : List String) :
+    let n := genIdent idx taken (taken.length + 1) 0
+    unraw n = n ∧ n ∉ taken := by
+  obtain ⟨k, he⟩ := genIdent_is_cand idx taken (taken.length + 1) 0
+  refine ⟨?_, genIdent_fresh idx taken⟩
+  simp only [he]; exact unraw_of_notRaw _ (genCand_notRaw idx k)
+
+/-- the invariant-carrying specification of the naming loop -/
+theorem nameArgs_spec (fnName : String) (hf : NotRaw fnName) :
+    ∀ (args : List FnArg) (idx : Nat) (taken : List String),
+      fnName ∈ taken →
+      (∀ k ∈ keptIdents fnName args, k ∈ taken) →
+      (keptIdents fnName args).Nodup →
+      (∀ n ∈ paramIdents (nameArgs fnName idx taken args), unraw n ≠ fnName) ∧
+      ((paramIdents (nameArgs fnName idx taken args)).map unraw).Nodup ∧
+      (∀ n ∈ paramIdents (nameArgs fnName idx taken args), unraw n ∈ taken → unraw n ∈ keptIdents fnName args)
+  | [], idx, taken, _, _, _ => by simp [nameArgs, paramIdents]
+  | .recv a r m c :: rest, idx, taken, h1, h2, h3 => by
+      simp only [nameArgs, paramIdents, keptIdents] at h2 h3 ⊢
+      exact nameArgs_spec fnName hf rest idx taken h1 h2 h3
+  | .typed attrs (.other t b) ty :: rest, idx, taken, h1, h2, h3 => by
+      simp only [keptIdents] at h2 h3
+      obtain ⟨hu, hfresh⟩ := unraw_generated idx taken
+      have ih := nameArgs_spec fnName hf rest (idx + 1) (genIdent idx taken (taken.length + 1) 0 :: taken)
+        (List.mem_cons_of_mem _ h1) (fun k hk => List.mem_cons_of_mem _ (h2 k hk)) h3
+      obtain ⟨i1, i2, i3⟩ := ih
+      simp only [nameArgs, plainPat, paramIdents, keptIdents, List.map_cons, List.nodup_cons, List.mem_cons,
+        forall_eq_or_imp, List.mem_map]
+      refine ⟨⟨?_, i1⟩, ⟨?_, i2⟩, ?_, ?_⟩
+      · rw [hu]; intro he; exact hfresh (he ▸ h1)
+      · rintro ⟨m, hm, hme⟩
+        have := i3 m hm (by rw [hme, hu]; exact List.mem_cons_self)
+        rw [hme, hu] at this
+        exact hfresh (h2 _ this)
+      · intro ht; rw [hu] at ht; exact absurd ht hfresh
+      · intro m hm ht
+        exact i3 m hm (List.mem_cons_of_mem _ ht)
+  | .typed attrs (.ident r m name sub) ty :: rest, idx, taken, h1, h2, h3 => by
+      by_cases hc : (unraw name == fnName) = true
+      · -- named like the function: renamed
+        simp only [keptIdents, hc, if_true] at h2 h3
+        obtain ⟨hu, hne, hfresh⟩ := unraw_renamed fnName hf taken
+        have ih := nameArgs_spec fnName hf rest (idx + 1) (renameIdent fnName taken (taken.length + 1) 1 :: taken)
+          (List.mem_cons_of_mem _ h1) (fun k hk => List.mem_cons_of_mem _ (h2 k hk)) h3
+        obtain ⟨i1, i2, i3⟩ := ih
+        simp only [nameArgs, hc, if_true, plainPat, paramIdents, keptIdents, List.map_cons, List.nodup_cons,
+          List.mem_cons, forall_eq_or_imp, List.mem_map]
+        refine ⟨⟨?_, i1⟩, ⟨?_, i2⟩, ?_, ?_⟩
+        · rw [hu]; exact hne
+        · rintro ⟨m', hm, hme⟩
+          have := i3 m' hm (by rw [hme, hu]; exact List.mem_cons_self)
+          rw [hme, hu] at this
+          exact hfresh (h2 _ this)
+        · intro ht; rw [hu] at ht; exact absurd ht hfresh
+        · intro m' hm ht
+          exact i3 m' hm (List.mem_cons_of_mem _ ht)
+      · -- kept as written
+        have hc' : (unraw name == fnName) = false := by simpa using hc
+        simp only [keptIdents, hc', Bool.false_eq_true, if_false] at h2 h3
+        have h3' := List.nodup_cons.mp h3
+        have ih := nameArgs_spec fnName hf rest (idx + 1) taken h1
+          (fun k hk => h2 k (List.mem_cons_of_mem _ hk)) h3'.2
+        obtain ⟨i1, i2, i3⟩ := ih
+        simp only [nameArgs, hc', Bool.false_eq_true, if_false, paramIdents, keptIdents, List.map_cons,
+          List.nodup_cons, List.mem_cons, forall_eq_or_imp, List.mem_map]
+        refine ⟨⟨?_, i1⟩, ⟨?_, i2⟩, ?_, ?_⟩
+        · intro he; simp [he] at hc
+        · rintro ⟨m', hm, hme⟩
+          have := i3 m' hm (by rw [hme]; exact h2 _ List.mem_cons_self)
+          rw [hme] at this
+          exact h3'.1 this
+        · intro _; exact Or.inl trivial
+        · intro m' hm ht
+          exact Or.inr (i3 m' hm ht)
+
+/-! ### positions -/
+
+@[simp] theorem typedArgs_nil : typedArgs [] = [] := rfl
+@[simp] theorem typedArgs_cons_recv (a r m c) (rest : List FnArg) :
+    typedArgs (.recv a r m c :: rest) = typedArgs rest := rfl
+@[simp] theorem typedArgs_cons_typed (a pt t) (rest : List FnArg) :
+    typedArgs (.typed a pt t :: rest) = .typed a pt t :: typedArgs rest := rfl
+
+theorem paramIdents_nameArgs_length (fnName : String) : ∀ (args : List FnArg) (idx : Nat) (taken : List String),
+    (paramIdents (nameArgs fnName idx taken args)).length = (typedArgs args).length
+  | [], _, _ => by simp [nameArgs, paramIdents]
+  | .recv a r m c :: rest, idx, taken => by
+      simp only [nameArgs, paramIdents, typedArgs_cons_recv]
+      exact paramIdents_nameArgs_length fnName rest idx taken
+  | .typed attrs (.other t b) ty :: rest, idx, taken => by
+      simp only [nameArgs, plainPat, paramIdents, typedArgs_cons_typed, List.length_cons]
+      rw [paramIdents_nameArgs_length fnName rest]
+  | .typed attrs (.ident r m name sub) ty :: rest, idx, taken => by
+      simp only [nameArgs]
+      split
+      · simp only [plainPat, paramIdents, typedArgs_cons_typed, List.length_cons]
+        rw [paramIdents_nameArgs_length fnName rest]
+      · simp only [paramIdents, typedArgs_cons_typed, List.length_cons]
+        rw [paramIdents_nameArgs_length fnName rest]
+
+theorem typedArgs_map_liftPat (args : List FnArg) :
+    (typedArgs (args.map FnArg.liftPat)).length = (typedArgs args).length := by
+  induction args with
+  | nil => rfl
+  | cons a rest ih =>
+    cases a with
+    | recv => simpa [FnArg.liftPat] using ih
+    | typed attrs pat ty => simp [FnArg.liftPat, ih]
+
+/-- (E) one name per typed parameter -/
+theorem paramIdents_fixParams_length (fnIdent : String) (inputs : List FnArg) :
+    (paramIdents (fixParams fnIdent inputs)).length = (typedArgs inputs).length := by
+  unfold fixParams
+  rw [paramIdents_nameArgs_length, typedArgs_map_liftPat]
+
+/-- receivers and parameter types are untouched, position by position -/
+def sameShape : List FnArg → List FnArg → Prop
+  | [], [] => True
+  | .recv a r m c :: xs, .recv a' r' m' c' :: ys => a = a' ∧ r = r' ∧ m = m' ∧ c = c' ∧ sameShape xs ys
+  | .typed a _ t :: xs, .typed a' _ t' :: ys => a = a' ∧ t = t' ∧ sameShape xs ys
+  | _, _ => False
+
+theorem sameShape_nameArgs (fnName : String) : ∀ (args : List FnArg) (idx : Nat) (taken : List String),
+    sameShape args (nameArgs fnName idx taken args)
+  | [], _, _ => by simp [nameArgs, sameShape]
+  | .recv a r m c :: rest, idx, taken => by
+      simp only [nameArgs, sameShape, true_and]
+      exact sameShape_nameArgs fnName rest idx taken
+  | .typed attrs (.other t b) ty :: rest, idx, taken => by
+      simp only [nameArgs, sameShape, true_and]
+      exact sameShape_nameArgs fnName rest _ _
+  | .typed attrs (.ident r m name sub) ty :: rest, idx, taken => by
+      simp only [nameArgs]
+      split
+      · simp only [sameShape, true_and]; exact sameShape_nameArgs fnName rest _ _
+      · simp only [sameShape, true_and]; exact sameShape_nameArgs fnName rest _ _
+
+theorem sameShape_map_liftPat : ∀ (args : List FnArg), sameShape args (args.map FnArg.liftPat)
+  | [] => by simp [sameShape]
+  | .recv a r m c :: rest => by
+      simp only [List.map_cons, FnArg.liftPat, sameShape, true_and]; exact sameShape_map_liftPat rest
+  | .typed attrs pat ty :: rest => by
+      simp only [List.map_cons, FnArg.liftPat, sameShape, true_and]; exact sameShape_map_liftPat rest
+
+theorem sameShape_trans : ∀ (a b c : List FnArg), sameShape a b → sameShape b c → sameShape a c
+  | [], [], [], _, _ => by simp [sameShape]
+  | .recv .. :: xs, .recv .. :: ys, .recv .. :: zs, h1, h2 => by
+      simp only [sameShape] at h1 h2 ⊢
+      obtain ⟨rfl, rfl, rfl, rfl, h1⟩ := h1
+      obtain ⟨rfl, rfl, rfl, rfl, h2⟩ := h2
+      exact ⟨rfl, rfl, rfl, rfl, sameShape_trans xs ys zs h1 h2⟩
+  | .typed .. :: xs, .typed .. :: ys, .typed .. :: zs, h1, h2 => by
+      simp only [sameShape] at h1 h2 ⊢
+      obtain ⟨rfl, rfl, h1⟩ := h1
+      obtain ⟨rfl, rfl, h2⟩ := h2
+      exact ⟨rfl, rfl, sameShape_trans xs ys zs h1 h2⟩
+  | [], [], _ :: _, _, h2 => by simp [sameShape] at h2
+  | [], _ :: _, _, h1, _ => by simp [sameShape] at h1
+  | _ :: _, [], _, h1, _ => by simp [sameShape] at h1
+  | .recv .. :: _, .typed .. :: _, _, h1, _ => by simp [sameShape] at h1
+  | .typed .. :: _, .recv .. :: _, _, h1, _ => by simp [sameShape] at h1
+  | .recv .. :: _, .recv .. :: _, [], _, h2 => by simp [sameShape] at h2
+  | .recv .. :: _, .recv .. :: _, .typed .. :: _, _, h2 => by simp [sameShape] at h2
+  | .typed .. :: _, .typed .. :: _, [], _, h2 => by simp [sameShape] at h2
+  | .typed .. :: _, .typed .. :: _, .recv .. :: _, _, h2 => by simp [sameShape] at h2
+
+/-- (E') `fixParams` changes nothing but the patterns of typed parameters -/
+theorem sameShape_fixParams (fnIdent : String) (inputs : List FnArg) :
+    sameShape inputs (fixParams fnIdent inputs) := by
+  unfold fixParams
+  exact sameShape_trans _ _ _ (sameShape_map_liftPat inputs) (sameShape_nameArgs _ _ _ _)
+
+/-! ### receivers are transparent to the naming -/
+
+theorem typedArgs_nameArgs (fnName : String) : ∀ (args : List FnArg) (idx : Nat) (taken : List String),
+    typedArgs (nameArgs fnName idx taken args) = nameArgs fnName idx taken (typedArgs args)
+  | [], _, _ => by simp [nameArgs]
+  | .recv a r m c :: rest, idx, taken => by
+      simp only [nameArgs, typedArgs_cons_recv]; exact typedArgs_nameArgs fnName rest idx taken
+  | .typed attrs (.other t b) ty :: rest, idx, taken => by
+      simp only [nameArgs, typedArgs_cons_typed]; rw [typedArgs_nameArgs fnName rest]
+  | .typed attrs (.ident r m name sub) ty :: rest, idx, taken => by
+      simp only [nameArgs, typedArgs_cons_typed]
+      split
+      · simp only [typedArgs_cons_typed]; rw [typedArgs_nameArgs fnName rest]
+      · simp only [typedArgs_cons_typed]; rw [typedArgs_nameArgs fnName rest]
+
+theorem typedArgs_map_lift (args : List FnArg) :
+    typedArgs (args.map FnArg.liftPat) = (typedArgs args).map FnArg.liftPat := by
+  induction args with
+  | nil => rfl
+  | cons a rest ih => cases a <;> simp [FnArg.liftPat, ih]
+
+theorem keptIdents_typedArgs (fnName : String) (args : List FnArg) :
+    keptIdents fnName (typedArgs args) = keptIdents fnName args := by
+  induction args with
+  | nil => rfl
+  | cons a rest ih =>
+    cases a with
+    | recv => simpa [keptIdents] using ih
+    | typed attrs pat ty =>
+      cases pat with
+      | ident r m n s => simp only [typedArgs_cons_typed, keptIdents, ih]
+      | other t b => simp only [typedArgs_cons_typed, keptIdents, ih]
+
+theorem typedArgs_fixParams (fnIdent : String) (inputs : List FnArg) :
+    typedArgs (fixParams fnIdent inputs) = fixParams fnIdent (typedArgs inputs) := by
+  unfold fixParams
+  rw [typedArgs_nameArgs, typedArgs_map_lift, ← keptIdents_typedArgs _ (inputs.map _), typedArgs_map_lift]
+
+theorem paramIdents_typedArgs (args : List FnArg) : paramIdents (typedArgs args) = paramIdents args := by
+  induction args with
+  | nil => rfl
+  | cons a rest ih =>
+    cases a with
+    | recv => simpa [paramIdents] using ih
+    | typed attrs pat ty => cases pat <;> simp [paramIdents, ih]
+
+/-! ### names that are kept -/
+
+/-- the name a (lifted) parameter carries -/
+theorem providedName_lift (a : FnArg) :
+    a.providedName = (match a.liftPat with
+      | .typed _ (.ident _ _ n _) _ => some n
+      | _ => none) := by
+  cases a with
+  | recv => simp [FnArg.providedName, FnArg.liftPat]
+  | typed attrs pat ty =>
+    cases pat with
+    | ident r m n s => simp [FnArg.providedName, Pat.providedName, FnArg.liftPat, liftPat, plainPat]
+    | other t b =>
+      simp only [FnArg.providedName, Pat.providedName, FnArg.liftPat, liftPat]
+      match List.filter lowerFirst b with
+      | [] => simp
+      | [x] => simp [plainPat]
+      | x :: y :: tl => simp
+
+theorem keptIdents_lift (fnName : String) (us : List FnArg) :
+    keptIdents fnName (us.map FnArg.liftPat) =
+      ((us.filterMap FnArg.providedName).map unraw).filter (fun k => !(k == fnName)) := by
+  induction us with
+  | nil => rfl
+  | cons a rest ih =>
+    have hp := providedName_lift a
+    cases hl : a.liftPat with
+    | recv ra rr rm rc =>
+      rw [hl] at hp
+      simp [keptIdents, hl, hp, ih]
+    | typed attrs pat ty =>
+      rw [hl] at hp
+      cases pat with
+      | other t b => simp [keptIdents, hl, hp, ih]
+      | ident r m n s =>
+        simp only at hp
+        simp only [List.map_cons, hl, keptIdents, List.filterMap_cons, hp, List.map_cons, List.filter_cons, ih]
+        by_cases hc : (unraw n == fnName) = true
+        · simp [hc]
+        · have hc' : (unraw n == fnName) = false := by simpa using hc
+          simp [hc']
+
+theorem namesKept_nameArgs (fnName : String) : ∀ (us : List FnArg) (idx : Nat) (taken : List String),
+    (∀ u ∈ us, u.isRecv = false) →
+    namesKept fnName us (paramIdents (nameArgs fnName idx taken (us.map FnArg.liftPat))) = true
+  | [], _, _, _ => by simp [nameArgs, paramIdents, namesKept]
+  | u :: rest, idx, taken, hty => by
+      have hp := providedName_lift u
+      have hrest : ∀ u ∈ rest, u.isRecv = false := fun x hx => hty x (List.mem_cons_of_mem _ hx)
+      cases hl : u.liftPat with
+      | recv ra rr rm rc =>
+        -- a typed parameter stays typed
+        cases u with
+        | recv => have := hty _ List.mem_cons_self; simp [FnArg.isRecv] at this
+        | typed => simp [FnArg.liftPat] at hl
+      | typed attrs pat ty =>
+        rw [hl] at hp
+        cases pat with
+        | other t b =>
+          simp only at hp
+          simp only [List.map_cons, hl, nameArgs, plainPat, paramIdents, namesKept, hp, Bool.true_and]
+          exact namesKept_nameArgs fnName rest _ _ hrest
+        | ident r m n s =>
+          simp only at hp
+          simp only [List.map_cons, hl, nameArgs]
+          split
+          · rename_i hc
+            simp only [plainPat, paramIdents, namesKept, hp, hc, if_true, Bool.true_and]
+            exact namesKept_nameArgs fnName rest _ _ hrest
+          · rename_i hc
+            have hc' : (unraw n == fnName) = false := by simpa using hc
+            simp only [paramIdents, namesKept, hp, hc', Bool.false_eq_true, if_false, beq_self_eq_true, Bool.true_and]
+            exact namesKept_nameArgs fnName rest _ _ hrest
+
+theorem nameArgs_notFn (fnName : String) (hf : NotRaw fnName) :
+    ∀ (args : List FnArg) (idx : Nat) (taken : List String), fnName ∈ taken →
+      ∀ n ∈ paramIdents (nameArgs fnName idx taken args), unraw n ≠ fnName
+  | [], _, _, _ => by simp [nameArgs, paramIdents]
+  | .recv a r m c :: rest, idx, taken, h1 => by
+      simp only [nameArgs, paramIdents]; exact nameArgs_notFn fnName hf rest idx taken h1
+  | .typed attrs (.other t b) ty :: rest, idx, taken, h1 => by
+      obtain ⟨hu, hfresh⟩ := unraw_generated idx taken
+      simp only [nameArgs, plainPat, paramIdents, List.mem_cons, forall_eq_or_imp]
+      refine ⟨?_, nameArgs_notFn fnName hf rest _ _ (List.mem_cons_of_mem _ h1)⟩
+      rw [hu]; intro he; exact hfresh (he ▸ h1)
+  | .typed attrs (.ident r m name sub) ty :: rest, idx, taken, h1 => by
+      simp only [nameArgs]
+      split
+      · obtain ⟨hu, hne, _⟩ := unraw_renamed fnName hf taken
+        simp only [plainPat, paramIdents, List.mem_cons, forall_eq_or_imp]
+        refine ⟨?_, nameArgs_notFn fnName hf rest _ _ (List.mem_cons_of_mem _ h1)⟩
+        rw [hu]; exact hne
+      · rename_i hc
+        simp only [paramIdents, List.mem_cons, forall_eq_or_imp]
+        refine ⟨?_, nameArgs_notFn fnName hf rest _ _ h1⟩
+        intro he; simp [he] at hc
+
+theorem typedArgs_of_allTyped : ∀ (us : List FnArg), (∀ u ∈ us, u.isRecv = false) → typedArgs us = us
+  | [], _ => rfl
+  | .recv a r m c :: rest, h => by have := h _ List.mem_cons_self; simp [FnArg.isRecv] at this
+  | .typed a pt t :: rest, h => by
+      simp [typedArgs_of_allTyped rest (fun x hx => h x (List.mem_cons_of_mem _ hx))]
+
+theorem nodup_iff (l : List String) : nodup l = true ↔ l.Nodup := by
+  induction l with
+  | nil => simp [nodup]
+  | cons x xs ih => simp [nodup, ih, List.nodup_cons]
+
+/-- all four naming guarantees for a list of typed parameters -/
+theorem paramNamesOk_fixParams (fnIdent : String) (hf : NotRaw (unraw fnIdent)) (us : List FnArg)
+    (hty : ∀ u ∈ us, u.isRecv = false) (sig : Sig) :
+    paramNamesOk fnIdent us { sig with inputs := fixParams fnIdent us } = true := by
+  unfold paramNamesOk
+  simp only [Bool.and_eq_true, List.nil_append]
+  refine ⟨⟨allPlain_fixParams fnIdent us, ?_⟩, ?_⟩
+  · -- never the function's own name
+    simp only [Bool.not_eq_true', ← Bool.not_eq_true]
+    intro hcontra
+    have hmem : unraw fnIdent ∈ (paramIdents (fixParams fnIdent us)).map unraw := by simpa using hcontra
+    obtain ⟨n, hn, hne⟩ := List.mem_map.mp hmem
+    exact nameArgs_notFn (unraw fnIdent) hf (us.map FnArg.liftPat) 0
+      (unraw fnIdent :: keptIdents (unraw fnIdent) (us.map FnArg.liftPat)) List.mem_cons_self n
+      (by simpa [fixParams] using hn) hne
+  · split
+    · rename_i hnd
+      have hnd' : ((us.filterMap FnArg.providedName).map unraw).Nodup := (nodup_iff _).mp hnd
+      have hk : (keptIdents (unraw fnIdent) (us.map FnArg.liftPat)).Nodup := by
+        rw [keptIdents_lift]; exact List.Nodup.sublist List.filter_sublist hnd'
+      have spec := nameArgs_spec (unraw fnIdent) hf (us.map FnArg.liftPat) 0
+        (unraw fnIdent :: keptIdents (unraw fnIdent) (us.map FnArg.liftPat))
+        List.mem_cons_self (fun k hk => List.mem_cons_of_mem _ hk) hk
+      simp only [Bool.and_eq_true]
+      exact ⟨(nodup_iff _).mpr (by simpa [fixParams] using spec.2.1),
+             by simpa [fixParams] using namesKept_nameArgs (unraw fnIdent) us 0 _ hty⟩
+    · simp only [beq_iff_eq]
+      rw [paramIdents_fixParams_length]
+      have : typedArgs us = us := typedArgs_of_allTyped us hty
+      rw [this]
+
+theorem sameShape_noRecv : ∀ (xs ys : List FnArg), sameShape xs ys → (∀ u ∈ xs, u.isRecv = false) →
+    ∀ u ∈ ys, u.isRecv = false
+  | [], [], _, _ => by simp
+  | [], _ :: _, h, _ => by simp [sameShape] at h
+  | _ :: _, [], h, _ => by simp [sameShape] at h
+  | .recv .. :: _, .typed .. :: _, h, _ => by simp [sameShape] at h
+  | .typed .. :: _, .recv .. :: _, h, _ => by simp [sameShape] at h
+  | .recv .. :: _, .recv .. :: _, _, hx => by have := hx _ List.mem_cons_self; simp [FnArg.isRecv] at this
+  | .typed .. :: xs, .typed .. :: ys, h, hx => by
+      simp only [sameShape] at h
+      intro u hu
+      rcases List.mem_cons.mp hu with rfl | hu
+      · rfl
+      · exact sameShape_noRecv xs ys h.2.2 (fun w hw => hx w (List.mem_cons_of_mem _ hw)) u hu
+
 end Entrait
